@@ -23,6 +23,16 @@ CLAIMED = {
         'analyser, generator, parser and flattening entry gates dominate the code they protect; document roots and import-source models are tested before use. Absence of all undefined behaviour is not claimed.',
    note='Trusted: clang AST/CFG/call graph, C++ exception specifications, libxml2 contracts named in the exemption reasons. Seven unguarded units-reference recursions are listed as known findings (replayed stack exhaustion on units a->b->a); three crash defects were repaired.',
    ref='DESIGN.md section 4, C01'),
+ 'C03': dict(
+   technique='static analysis: abstract interpretation of the generator\'s parenthesisation if-chains into a (profile, parent, side, child class) decision table checked against C/Python operator precedence; dispatch exhaustiveness and stem agreement; symbolic power-of-scaling-factor evaluation; CFG ordering',
+   text='(P) The parenthesisation logic of generateOperatorCode and the unary/piecewise helpers is extracted from the AST of generator.cpp, evaluated under the flags of the C and Python profiles for every parent operator, side and child class (3054 obligations), '
+        'and where no parentheses are added the syntactic root of the child\'s emitted text (a fixpoint over transparent forms) must bind tightly enough under the target language\'s precedence and associativity; `-` is never glued to text starting with `-`. '
+        '(D) generateCode has a case for every AST type and emits through the profile string of the same stem. (S) the unit-scaling factor comes from Units::scalingFactor(used variable, primary variable) in analyser and generator, '
+        'is applied to every CI node except the computed variable and the variable of integration, and its power (s or 1/s) at each of the five application sites is the one the equations require, evaluated symbolically through the helper, the call-site expression and scaleAst. '
+        '(E) dependencies are emitted before an equation. Necessary conditions of "the generated code computes what the equations say"; no code is generated, compiled or run, and numerical results are not decided.',
+   note='Trusted: clang AST/CFG; the C and Python precedence tables in sa/paren.py; MathML structure enforced by the validator (EQUALITY/PIECE/OTHERWISE/BVAR never are operands). The decision-table model was cross-validated once, as triage, against the real generator on 2577 instances (triage/paren/replay.py). '
+        'Profiles with a power operator or without a conditional operator are custom profiles and are not enumerated. The 128 missing-parentheses keys found on the pinned tree were all replayed and repaired (fix commit 494beed).',
+   ref='DESIGN.md section 4, C03'),
  'C04': dict(
    technique='static analysis: traversal-completeness rules over a frozen caller->callee table (full loops, no early exit, no extra guards), dedupe-set discipline, cited-rule floor, vocabulary agreement between validator and analyser',
    text='The validator traversals that reach every component, variable, reset, units and identifier are complete (full child loops, no early exit, descent under no condition but the per-entity import exemption decided on the entity itself); '
